@@ -32,6 +32,7 @@ type Env struct {
 	key            string // clause key for skolem names
 	freshLo        int    // objects with aid > freshLo were allocated since `old`
 	depth          int
+	inAxiom        bool
 	keepUniversals bool
 	target         *State // state that records universals (the live path state)
 }
@@ -850,6 +851,22 @@ func (e *Env) call(x ECall) EVal {
 			efail("isfunc: unknown function %q", s.V)
 		}
 		return EVal{T: Eq(App("clofn", SInt, v.T), IntLit(int64(u.P.fnID(f))))}
+	case "isbound":
+		// isbound(v, "method"): v is the bound-method value x.method for some receiver x
+		v := arg(0)
+		sv, ok := x.Args[1].(EStr)
+		if !ok {
+			efail("isbound(v, \"method\")")
+		}
+		var alts []Term
+		u.P.mu.Lock()
+		for i, f := range u.P.fnByID {
+			if f.Name() == sv.V+"$bound" {
+				alts = append(alts, Eq(App("clofn", SInt, v.T), IntLit(int64(i+1))))
+			}
+		}
+		u.P.mu.Unlock()
+		return EVal{T: Or(alts...)}
 	case "binding":
 		// binding(v, i, "sort") : i-th captured value of closure v (addresses for captured variables)
 		v := arg(0)
@@ -935,7 +952,7 @@ func (e *Env) call(x ECall) EVal {
 		if rs == SStr {
 			u.Axiom(Ge(App("slen", SInt, t), IntLit(0)))
 		}
-		if len(args) == 1 {
+		if len(args) == 1 && !e.inAxiom {
 			for _, tr := range u.P.axTriggers[g.Name] {
 				key := fmt.Sprintf("axinst:%d:%s", tr.id, args[0])
 				if u.declS[key] {
@@ -944,6 +961,7 @@ func (e *Env) call(x ECall) EVal {
 				u.declS[key] = true
 				sub := e.with(map[string]EVal{tr.v: {T: args[0]}})
 				sub.assuming = true
+				sub.inAxiom = true // no nested instantiation (matching loops)
 				func() {
 					defer func() {
 						if r := recover(); r != nil {
